@@ -677,11 +677,18 @@ def _run_alg(cfg, data, cap, with_cb, tl, D):
                     fs.append(rng.random_sample((s, r)) + 0.1)
             if truth is not None:                    # warm start AT the known solution of the noise-free problem
                 core, fs = truth[0].copy(), [u.copy() for u in truth[1]]
-            rawinit = (core, fs)
+            if cfg.get("init_shared"):                 # equal-sized modes hold the SAME array object (a symmetric start)
+                for j_ in range(1, len(fs)):
+                    if fs[j_].shape == fs[0].shape:
+                        fs[j_] = fs[0]
+            rawinit = (core, [f.copy() for f in fs])
             if cfg.get("init_reuse") and cfg["id"] in _SHARED_INIT:
                 init = _SHARED_INIT[cfg["id"]]
             else:
                 init = (core.copy(), [f.copy() for f in fs])
+                if cfg.get("init_shared"):
+                    A_ = fs[0].copy()
+                    init = (core.copy(), [A_ if f is fs[0] else f.copy() for f in fs])
                 if cfg.get("init_as") == "object":
                     from tensorly.tucker_tensor import TuckerTensor
                     init = TuckerTensor(init)
@@ -1694,6 +1701,16 @@ def warm_configs(tier, seed):
     for alg, kw in fixed_algs:
         for rk in (1, 3, 5):
             add(alg, **dict(kw, shape=shape, rank=rk, init_weights="positive", fixed=[[], [0], [1]][rk % 3], caps=[0, 1, 2]))
+    # a symmetric start: equal-sized modes hold the SAME array object, one of them fixed (an in-place update of the free one
+    # would write through into the fixed one)
+    for fx in ([0], [1], [2], [0, 2], []):
+        add("nn_tucker_hals", shape=[4, 4, 3], rank=[2, 2, 2], data="nonneg", tol="zero", algorithm=["fista", "active_set"][len(fx) % 2], fixed=fx,
+            init_shared=True, caps=[0, 1, 2, 3])
+        if fx:
+            add("tucker", shape=[4, 4, 3], rank=[2, 2, 2], data="generic", tol="zero", fixed=fx, init_shared=True, caps=[0, 1, 2])
+        for alg, kw in fixed_algs:
+            add(alg, **dict(kw, shape=[4, 4, 4], rank=2, init_weights="none", fixed=fx, init_shared=True, caps=[0, 1, 2]))
+    add("nn_tucker", shape=[4, 4, 3], rank=[2, 2, 2], data="nonneg", tol="zero", init_shared=True, caps=[0, 1, 2])
     # the CLASS interface (CP, CP_NN, CP_NN_HALS, ConstrainedCP, Tucker, Tucker_NN, Tucker_NN_HALS, Parafac2) with the same budgets,
     # zero included: an estimator built with n_iter_max=0 evaluates the warm start and does not iterate
     for alg, kw in fixed_algs:
